@@ -160,6 +160,7 @@ NEEDS = {
  "C19h-posix-pattern-cache-published-early": ("C19", ["C19"], "a posix-pattern of 48 or more bytes resolved by two loaders at once while not in the table (first use, or more than 128 distinct ones)"),
  "C20h-prefix-cache-slot-reuse": ("C20", ["C20"], "nine or more distinct prefixes requested while an earlier writer is still in use"),
  "C02i-columns-in-bytes": ("C02", ["C02", "C16"], "a multi-byte character in an unquoted token or an earlier double-quoted piece on the line where an over-indented multi-line string opens"),
+ "C06i-prefixed-uses-skips-scopes": ("C06", ["C06"], "a uses statement that names a grouping defined in an enclosing container with the module's own prefix"),
  "C20b-empty-write-clears-partial": ("C20", ["C20"], "zero-length Write in the middle of a line clears the mid-line flag: the next Write gets a prefix inside the line"),
  "C20-early-out-continued-line": ("C20", ["C20"], "short write of 1..len(prefix) bytes on a Write that continues a partial line returns 0 although caller bytes were written"),
 }
